@@ -89,13 +89,32 @@ func (r *repo) nilChildren() int {
 	return c
 }
 
-// tracker is the harness ItemActionTracker (in-memory SOP does nothing here either).
-type tracker struct{ adds, gets, updates, removes int }
+// tracker is the harness ItemActionTracker. It records every notification the B-tree sends
+// (the transaction layer builds locks, conflict checks, merge replay and value-blob deletion
+// on exactly these), so a case can compare them with what the call really did.
+type trkEvent struct {
+	kind   byte // 'A' add, 'U' update, 'R' remove, 'G' get
+	id     sop.UUID
+	n, tag int
+	val    int
+	hasVal bool
+}
 
-func (k *tracker) Add(context.Context, *itemT) error    { k.adds++; return nil }
-func (k *tracker) Get(context.Context, *itemT) error    { k.gets++; return nil }
-func (k *tracker) Update(context.Context, *itemT) error { k.updates++; return nil }
-func (k *tracker) Remove(context.Context, *itemT) error { k.removes++; return nil }
+type tracker struct{ ev []trkEvent }
+
+func (k *tracker) note(kind byte, it *itemT) error {
+	e := trkEvent{kind: kind, id: it.ID, n: it.Key.N, tag: it.Key.Tag}
+	if it.Value != nil {
+		e.val, e.hasVal = *it.Value, true
+	}
+	k.ev = append(k.ev, e)
+	return nil
+}
+func (k *tracker) Add(_ context.Context, it *itemT) error    { return k.note('A', it) }
+func (k *tracker) Get(_ context.Context, it *itemT) error    { return k.note('G', it) }
+func (k *tracker) Update(_ context.Context, it *itemT) error { return k.note('U', it) }
+func (k *tracker) Remove(_ context.Context, it *itemT) error { return k.note('R', it) }
+func (k *tracker) reset()                                    { k.ev = k.ev[:0] }
 
 // cfg is the configuration of one tree.
 type cfg struct {
@@ -301,14 +320,47 @@ func (tr *tree) scanBackward() ([]obs, error) {
 	return out, nil
 }
 
-// current reads the item under the cursor through GetCurrentKey and GetCurrentValue.
+// current reads the item under the cursor through GetCurrentKey and GetCurrentValue. Reading
+// the value must be reported to the ItemActionTracker as a Get of exactly that item.
 func (tr *tree) current() (obs, error) {
 	ck := tr.b.GetCurrentKey()
+	before := 0
+	if tr.trk != nil {
+		before = len(tr.trk.ev)
+	}
 	v, err := tr.b.GetCurrentValue(ctx)
 	if err != nil {
 		return obs{}, fmt.Errorf("GetCurrentValue: %w", err)
 	}
+	if tr.trk != nil && !ck.ID.IsNil() {
+		got := tr.trk.ev[before:]
+		if len(got) != 1 || got[0].kind != 'G' || got[0].id != ck.ID || got[0].n != ck.Key.N {
+			return obs{}, fmt.Errorf("GetCurrentValue on item key=%d id=%v sent these ItemActionTracker notifications: %s (want one Get of that item)", ck.Key.N, ck.ID, renderEvents(got))
+		}
+	}
+	if tr.trk != nil {
+		tr.trk.ev = tr.trk.ev[:before]
+	}
 	return obs{N: ck.Key.N, Tag: ck.Key.Tag, Val: v, ID: ck.ID}, nil
+}
+
+func renderEvents(ev []trkEvent) string {
+	out := "["
+	for i, e := range ev {
+		if i > 0 {
+			out += " "
+		}
+		if i >= 12 {
+			out += fmt.Sprintf("...(%d)", len(ev))
+			break
+		}
+		out += fmt.Sprintf("%c(key=%d", e.kind, e.n)
+		if e.hasVal {
+			out += fmt.Sprintf(" value=%d", e.val)
+		}
+		out += ")"
+	}
+	return out + "]"
 }
 
 func sameItem(a, b obs) bool {
